@@ -1326,7 +1326,9 @@ func (e *FnExec) builtin(st *State, b *ssa.Builtin, c *ssa.CallCommon, res ssa.V
 			e.set(res, r)
 		case *types.Map:
 			r := Ite(Eq(v, NilLoc), IntLit(0), Select(e.getMem(st, mapLenClass, mapLenSort), v))
-			e.addFact(st, Le(IntLit(0), r))
+			// physical bound, as for slices: an existing map holds at most 2^46 entries
+			e.addFact(st, And(Le(IntLit(0), r), Le(r, IntLit(1<<46))))
+			e.assumed["existing maps hold at most 2^46 entries (physical bound, as for slices)"]++
 			e.set(res, r)
 		case *types.Array:
 			e.set(res, IntLit(t.Len()))
